@@ -72,7 +72,7 @@ package utils
 
 // the first occurrence is cut out (the rest keeps its order); nothing changes when it does not occur
 //@ func RemoveSingleStringOccurrence
-//@   property C07 C18
+//@   property C07 C18 C03
 //@   ensures [absent_unchanged] (forall k int :: 0 <= k && k < len(s) ==> old(s[k]) != r) ==> result == s
 //@   ensures [one_shorter] (exists k int :: 0 <= k && k < len(s) && old(s[k]) == r) ==> len(result) == len(s) - 1
 //@   ensures [same_backing_array] len(s) > 0 ==> arr(result) == arr(s)
